@@ -376,7 +376,10 @@ def run_property(prop, tier, seed, verbose=False, write_evidence=True):
             known_hit.append((kf[0], v.oid))
             continue
         in_ledger = v.oid in ledger.get("obligations", {})
-        if r["status"] == "sat" or wit is not None or (in_ledger and code_changed):
+        # an open (unknown) obligation counts as violated only if it was discharged for the reference code AND a
+        # function this obligation depends on (its own, an inlined callee, a contract it uses) has been edited
+        relevant_change = bool(set(v.meta.get("deps", ())) & changed)
+        if r["status"] == "sat" or wit is not None or (in_ledger and relevant_change):
             os.makedirs(replay_dir, exist_ok=True)
             path = os.path.join(replay_dir, v.oid.replace("/", "__").replace(":", "_")[:150] + ".json")
             smt_path = path[:-5] + ".smt2"
